@@ -664,8 +664,12 @@ class Grid:
             data_unpacked, axis=axis, to=to
         )
 
-        # if any dims are chunked then we need dask
-        if isinstance(data_unpacked.data, Dask_Array):
+        # if any input is lazy then we need dask (across face connections the halo
+        # of a vector component may be cut from its partner component)
+        partners = (
+            list(other_component.values()) if isinstance(other_component, dict) else []
+        )
+        if any(isinstance(a.data, Dask_Array) for a in [data_unpacked, *partners]):
             dask = "parallelized"
         else:
             dask = "forbidden"
